@@ -497,7 +497,7 @@ func (p *parser) primary() Expr {
 
 // ---- contract file reader
 
-var stmtKeywords = map[string]bool{"assume_after": true, "iface": true, "package": true, "ghost": true, "pred": true, "def": true, "func": true, "requires": true, "ensures": true,
+var stmtKeywords = map[string]bool{"trusted": true, "assume_after": true, "iface": true, "package": true, "ghost": true, "pred": true, "def": true, "func": true, "requires": true, "ensures": true,
 	"modifies": true, "loop": true, "lemma": true, "axiom": true, "opt": true, "inline": true, "pure": true, "use": true}
 
 func readContractFile(path, pkg string) (*ContractFile, error) {
@@ -681,6 +681,10 @@ func readContractFile(path, pkg string) (*ContractFile, error) {
 					return nil, fail(err)
 				}
 				cur.AssumeAfter = append(cur.AssumeAfter, CallAssume{Key: key, Cl: cl})
+			case "trusted":
+				// the contract is assumed, not proved (reported as an assumption wherever it is used)
+				cur.Trusted = true
+				cur.Opts["trusted_reason"] = strings.TrimSpace(rest)
 			case "inline":
 				cur.Inline = true
 			case "pure":
